@@ -2,14 +2,14 @@
 SPECIFICATION Spec
 CONSTANTS
   PredSet <- Q_PredSet
-  ColorSet <- Q_ColorSet
+  ColorSet <- QM_ColorSet
   BpcSet <- Q_BpcSet
-  ColSet <- Q_ColSet
+  ColSet <- QM_ColSet
   VerSet <- Q_VerSet
   KSet <- Q_KSet
-  CColSet <- Q_CColSet
-  RowSet <- Q_RowSet
-  DmgSet <- Q_DmgSet
+  CColSet <- QM_CColSet
+  RowSet <- QM_RowSet
+  DmgSet <- QM_DmgSet
   CVerSet = {10, 17}
   MaxAppends = 3
   BREAK = "none"
